@@ -72,19 +72,36 @@ def render_case(c, name):
     ks = ["(%d%%nat, %d%%nat, @of3 %s %s)" % (p_, dr, ring, tab(t, cplx, 3)) for p_, (dr, t) in zip(c["ps"], c["ket"])]
     out.append("Eval vm_compute in (%s (@rdm1_all %s [%s]))." % (tz, ring, "; ".join(ks)))
     out.append("Eval vm_compute in (%s (@rdm2_all %s [%s]))." % (tz, ring, "; ".join(ks)))
+    out.append("Definition %s_ks : list (ksite %s) := [%s]." % (name, ring, "; ".join(ks)))
     if c.get("dm"):
         dm = c["dm"]
         for which in ("bra", "ket"):
             items = ["(%d%%nat, @of4 %s %s)" % (dr, ring, tab(t, cplx, 4)) for dr, t in dm[which]]
             out.append("Definition %s_d%s : list (nat * T4 %s) := [%s]." % (name, which, ring, "; ".join(items)))
-        out.append("Eval vm_compute in (%s (map (fun m : hop (OpSite %s) => expectation4t (zip4 %s_ps %s_ps %s_dbra (map (fun ho => (snd (fst (snd ho)), snd (snd ho))) m) %s_dket)) (firstn %d%%nat %s_ms)))."
-                   % (tz, ring, name, name, name, name, dm["nops"], name))
+        out.append("Definition %s_dms : list (hop (OpSite %s)) := firstn %d%%nat %s_ms." % (name, ring, dm["nops"], name))
+        dargs = "%s %s_ps %s_ps %s_dbra %s_dket" % (ring, name, name, name, name)
+        out.append("Eval vm_compute in (%s (expectations_slow4 %s %s_dms))." % (tz, dargs, name))
+        out.append("Eval vm_compute in (match expectations_fast4 %s %d%%nat %s_dms with Some vs => %s vs | None => [] end)." % (dargs, n, name, tz))
+        ks4 = ["(%d%%nat, %d%%nat, %d%%nat, @of4 %s %s)" % (p_, p_, dr, ring, tab(t, cplx, 4)) for p_, (dr, t) in zip(c["ps"], dm["ket"])]
+        out.append("Definition %s_ks4 : list (ksite4 %s) := [%s]." % (name, ring, "; ".join(ks4)))
+        out.append("Eval vm_compute in (%s (rdm1_all4 %s_ks4))." % (tz, name))
+        out.append("Eval vm_compute in (%s (rdm2_all4 %s_ks4))." % (tz, name))
     else:
-        out.append("Eval vm_compute in (@nil Z).")
+        out += ["Eval vm_compute in (@nil Z)."] * 4
+    if c.get("occ") and "values" in c["occ"]:
+        oc = c["occ"]
+        out.append("Eval vm_compute in (%s (map (occ_dense %s_ks) [%s]%%nat))." % (tz, name, "; ".join(str(k) for k in oc["sites"])))
+        probes = []
+        for m in oc["mpos"]:
+            chain = "[" + "; ".join("(%d%%nat, @of4 %s %s)" % (dr, ring, tab(t, cplx, 4)) for dl_, dr, t in m) + "]"
+            probes.append("%s (diag_probe %s %s_ps)" % (tz, chain, name))
+        out.append("Eval vm_compute in (%s)." % " ++ ".join(probes))
+    else:
+        out += ["Eval vm_compute in (@nil Z)."] * 2
     return "\n".join(out) + "\n"
 
 
-NL = 10     # printed lists per case
+NL = 15     # printed lists per case
 
 
 def ints(vals, cplx):
@@ -108,7 +125,7 @@ def compare_case(c, lists):
     im = c["impl"]
     if len(lists) != NL:
         return [{"what": "model output incomplete", "n_lists": len(lists)}]
-    fast_m, slow_m, pl_m, pr_m, split_m, el_m, er_m, rdm_m, rdm2_m, dm_m = lists
+    fast_m, slow_m, pl_m, pr_m, split_m, el_m, er_m, rdm_m, rdm2_m, dm_m, dmf_m, drdm1_m, drdm2_m, occ_m, probe_m = lists
     one_i, fast_i, slow_i = ints(im["one"], cplx), ints(im["fast"], cplx), ints(im["slow"], cplx)
     if one_i is None or fast_i is None or slow_i is None:
         bad.append({"what": "implementation value is not an integer on integer data", "one": im["one"][:4], "fast": im["fast"][:4]})
@@ -153,8 +170,32 @@ def compare_case(c, lists):
         one_d, fast_d = ints(c["dm"]["one"], cplx), ints(c["dm"]["fast"], cplx)
         if one_d is None or one_d != dm_m:
             bad.append({"what": "MpDm.expectation (rank-4 sites): implementation vs model", "impl": (one_d or c["dm"]["one"])[:12], "model": dm_m[:12]})
+        if fast_d is None or fast_d != dmf_m:
+            bad.append({"what": "MpDm.expectations fast path (rank-4 sites): implementation vs model", "impl": (fast_d or c["dm"]["fast"])[:12], "model": dmf_m[:12]})
         if fast_d != one_d:
             bad.append({"what": "implementation: MpDm fast path differs from one-by-one path", "fast": c["dm"]["fast"][:6], "one": c["dm"]["one"][:6]})
+        for nm, key, got in (("calc_1site_rdm", "rdm1", drdm1_m), ("calc_2site_rdm", "rdm2", drdm2_m)):
+            v = ints(c["dm"][key], cplx)
+            if v is None or v != got:
+                bad.append({"what": "MpDm %s (rank-4 branch, entrywise): implementation vs model" % nm, "impl": (v or c["dm"][key])[:16], "model": got[:16]})
+    if c.get("occ") and "error" in c["occ"]:
+        bad.append({"what": "e_occupations / ph_occupations raised", "error": c["occ"]["error"]})
+    elif c.get("occ"):
+        oc = c["occ"]
+        v = ints(oc["values"], cplx)
+        if v is None or v != occ_m:
+            bad.append({"what": "e_occupations / ph_occupations: implementation vs sum_s s_k |Psi(s)|^2 of the model", "impl": (v or oc["values"])[:12], "model": occ_m[:12]})
+        # assumption of C07_occupation_dense: the number-operator MPO is diag(s_k), nothing off the diagonal
+        want = []
+        cfgs = [[]]
+        for d in reversed(c["ps"]):
+            cfgs = [[a] + r for a in range(d) for r in cfgs]
+        for k in oc["sites"]:
+            for cf in cfgs:
+                want += [cf[k], 0] if cplx else [cf[k]]
+            want += [0, 0] if cplx else [0]
+        if want != probe_m:
+            bad.append({"what": "number-operator MPO is not diag(s_k) (assumption of C07_occupation_dense)", "sites": oc["sites"], "model": probe_m[:24], "want": want[:24]})
     return bad
 
 
@@ -162,7 +203,7 @@ def run(ctx):
     quick = ctx.tier == "quick"
     seed = ctx.seed
     ctx.trusted += [
-        "hand-written models Model/Env.v, Model/FreqCache.v (tied by exact correspondence on integer / Gaussian-integer data: values, cache plan keys, split indices, cached tensors)",
+        "hand-written models Model/Env.v, Model/FreqCache.v (tied by exact correspondence on integer / Gaussian-integer data: values, cache plan keys, split indices, cached tensors, 1-/2-site RDMs of Mps and MpDm, MpDm fast path, occupations and the diagonality of the number-operator MPOs)",
         "correspondence harness harness/c07.py + impl/c07_tie.py (calls _construct_freq_environ/_get_freq_environ directly with the hash lists the model receives); Matrix.__hash__ values are passed to the model as opaque integers",
         "hash injectivity on the site matrices present is a hypothesis of the fast=slow theorem (the code raises RuntimeError on a detected collision)",
         "modelled, not verified: binary64 rounding and the pairwise einsum order inside contract_one_site / multi_tensor_contract; entropy formulas (calc_vn_entropy, eigh, compress singular values) are checked by the dense oracle only",
@@ -271,7 +312,7 @@ def run(ctx):
             ex = classes[k][0]
             break
         ctx.violation("rdm-vs-dense-partial-trace",
-                      "theorems C07_rdm1_dense / C07_rdm2_dense (models of calc_1site_rdm, calc_2site_rdm = partial trace of |Psi><Psi|) no longer describe the code; dense oracle",
+                      "theorems C07_rdm1_dense / C07_rdm2_ptrace / C07_rdm1_dm_ptrace / C07_rdm2_dm_ptrace (models of calc_1site_rdm, calc_2site_rdm = partial trace of |Psi><Psi|) no longer describe the code; dense oracle",
                       {"snippet_output": out_rdm[-800:], "oracle_example": ex}, found=True, repro=RDM_REVERT_REPRO)
     for k, fl in classes.items():
         if k in rdm_classes:
